@@ -1,7 +1,7 @@
 (* C15Theorems.v — the property theorems of C15 and nothing else. *)
 From V.lib Require Import Base.
 From V.c13 Require Import C13Spec C13Model.
-From V.c15 Require Import C15Model C15Spec C15BitProofs C15AvcSpsProofs C15AvcVuiProofs C15Examples.
+From V.c15 Require Import C15Model C15Spec C15BitProofs C15AvcSpsProofs C15AvcVuiProofs C15AvcPpsProofs C15Examples.
 
 (* AVC SPS: for every field assignment accepted by sps_valid (profiles with and without the
    chroma / bit-depth / scaling-list block, scaling lists, poc types 0-2, frame/field, cropping for
@@ -36,3 +36,19 @@ Theorem C15_avc_sps_offsets_refuted :
   exists v, sps_valid v = true /\ parse_sps_br true (nalu_sps v) <> Ok (expected_sps true v).
 Proof. exists ex_sps_offsets. split; [vm_compute; reflexivity | vm_compute; discriminate]. Qed.
 Print Assumptions C15_avc_sps_offsets_refuted.
+
+(* AVC PPS (repaired text): all slice-group map types 0..6, the part behind more_rbsp_data() present
+   or absent, pic scaling lists for every chroma format with and without transform_8x8_mode_flag,
+   rbsp trailing bits checked.  chroma = ChromaFormatIDC of the SPS that spsMap holds for the PPS's
+   seq_parameter_set_id (consulted only when pic_scaling_matrix_present_flag is set). *)
+Theorem C15_avc_pps : forall chroma spsmap v,
+  pps_valid chroma v = true ->
+  (pps_has_tail v && pic_scaling_matrix_present_flag v = true ->
+   spsmap (pps_seq_parameter_set_id v) = Some chroma) ->
+  parse_pps_br spsmap (nalu_pps v) = Ok (expected_pps v).
+Proof. exact avc_pps. Qed.
+Print Assumptions C15_avc_pps.
+Example C15_avc_pps_hyps :
+  pps_valid 3 ex_pps = true /\ pps_slice_group_id (expected_pps ex_pps) = [0; 2; 1; 1; 0]
+  /\ length (pps_pic_scaling_lists (expected_pps ex_pps)) = 12%nat.
+Proof. vm_compute. repeat split. Qed.
